@@ -195,6 +195,17 @@ Proof.
   rewrite orb_false_r in Hc. apply negb_true_iff, N.eqb_neq in Hc. exact Hc.
 Qed.
 
+Lemma In_remove_for_fabric_keep : forall x i keep l,
+  In x (remove_for_fabric i keep l) ->
+  exists y, In y l /\
+    ((x = y /\ s_fab y <> i) \/ (x = set_exp y /\ opt_is keep (s_id y) = true)).
+Proof.
+  unfold remove_for_fabric. intros x i keep l H. apply in_map_iff in H.
+  destruct H as (y & Hx & Hy). apply filter_In in Hy. destruct Hy as [Hy Hc]. exists y. split; [exact Hy|].
+  destruct (opt_is keep (s_id y)); [right; auto|]. left. split; [auto|].
+  rewrite orb_false_r in Hc. apply negb_true_iff, N.eqb_neq in Hc. exact Hc.
+Qed.
+
 Lemma In_remove_pase : forall x keep l,
   In x (remove_pase keep l) -> exists y, In y l /\ (x = y \/ x = set_exp y).
 Proof.
@@ -231,6 +242,27 @@ Lemma In_upgrade : forall x sid idx inc l,
 Proof.
   unfold upgrade. intros x sid idx inc l H. apply in_map_iff in H. destruct H as (y & Hx & Hy).
   exists y. split; [exact Hy|]. destruct (s_id y =? sid); auto.
+Qed.
+
+Lemma ids_release : forall sid l, map s_id (release sid l) = map s_id l.
+Proof.
+  intros. unfold release. apply map_map_same. intro x. destruct (s_id x =? sid); reflexivity.
+Qed.
+
+Lemma In_release : forall x sid l,
+  In x (release sid l) ->
+  exists y, In y l /\
+    (x = y \/ x = mkSess (s_id y) (s_mode y) (s_fab y) (s_node y) (s_exp y) false (s_inc y)).
+Proof.
+  unfold release. intros x sid l H. apply in_map_iff in H. destruct H as (y & Hx & Hy).
+  exists y. split; [exact Hy|]. destruct (s_id y =? sid); auto.
+Qed.
+
+Lemma opt_is_keep_if_on : forall f keep l k,
+  opt_is (keep_if_on f keep l) k = true -> opt_is keep k = true.
+Proof.
+  unfold keep_if_on. intros f keep l k H. destruct keep as [k0|]; [|discriminate H].
+  destruct (sget k0 l) as [s|]; [|discriminate H]. destruct (s_fab s =? f); [exact H|discriminate H].
 Qed.
 
 Lemma lt_set_exp : forall s, s_id (set_exp s) = s_id s. Proof. reflexivity. Qed.
